@@ -33,8 +33,19 @@ def configs_for(mode):
     return cfgs
 
 
-def gen_algo_case(rng, ctx, classes="D1 D2 D3 D3 D4 D5 D6 D7 D8 D9 D10 D10", schemes="S1 S1 S2 S3 S3 S6 S9 S11",
+def gen_algo_case(rng, ctx, classes="D1 D2 D3 D3 D4 D5 D6 D7 D8 D9 D10 D10 D16 D17", schemes="S1 S1 S2 S3 S3 S6 S9 S11",
                   nmax=7, nconf=7):
+    gen.OUTLIER["n_only_up_to"] = 10       # exact configurations solve an ILP: element outliers stay moderate
+    if "D" not in ctx.mode and "C" not in ctx.mode and rng.random() < 0.006:
+        # one strongly connected component larger than ParCons' default bound for the exact solver (80): the default
+        # ParCons must hand it to its auxiliary algorithm; heuristics only (an ILP on 85 elements is out of reach)
+        n = rng.choice([83, 85, 90])     # stays above the bound after one element is removed in place
+        base = list(range(n))
+        rng.shuffle(base)
+        ds = [[[e] for e in base[k:] + base[:k]] for k in (0, n // 3, 2 * n // 3)]
+        return {"ds": ds, "scheme": [list(v) for v in ref.PRESETS[rng.choice(["unifying", "pseudodistance"])]],
+                "configs": ["ParCons", "BioConsert", "KwikSort", "Borda", "Copeland", "BioCo", "ParCons(KwikSort;80)"],
+                "one": True, "libseed": rng.randrange(10 ** 6), "dcls": "huge-component", "scls": "S1"}
     cls, ds = gen.dataset(rng, classes=classes, nmax=nmax, mmax=6)
     ds = libx.normalise_raw(ds)
     scls, sch = gen.scheme(rng, schemes)
